@@ -5,6 +5,8 @@
      PInvoke           the runtime API answers it with INVOKE (an invocation begins)
      PAccept(d)        datapoint d was accepted (the ingestion endpoint answered 2xx)
      PRuntimeDone      the driver is about to post the telemetry batch that carries this invocation's platform.runtimeDone record
+     PInitMark         the init phase is about to end (the driver lets the extension finish its start-up): what was accepted so far must be
+                       covered by the initial flush, i.e. delivered before the first next request
      PUpReq(ds)        the upstream receives a POST /v2/raw carrying datapoints ds
      PUpDone(ds)       the upstream has answered that request (any status) or dropped the connection
      PInitError        the runtime API receives POST /extension/init/error
@@ -29,6 +31,7 @@ PStart(fault) == accepted' = {} /\ due' = {} /\ settled' = {} /\ inflight' = {} 
                  /\ faulty' = fault /\ initErr' = FALSE /\ UNCHANGED bad
 PAccept(d) == accepted' = accepted \cup {d} /\ UNCHANGED <<due, settled, inflight, answered, nexts, running, doneSent, faulty, initErr, bad>>
 PRuntimeDone == due' = due \cup accepted /\ doneSent' = TRUE /\ UNCHANGED <<accepted, settled, inflight, answered, nexts, running, faulty, initErr, bad>>
+PInitMark == due' = due \cup accepted /\ UNCHANGED <<accepted, settled, inflight, answered, nexts, running, doneSent, faulty, initErr, bad>>
 PInvoke == running' = TRUE /\ doneSent' = FALSE /\ UNCHANGED <<accepted, due, settled, inflight, answered, nexts, faulty, initErr, bad>>
 PNextReq ==
   /\ Latch(IF running /\ ~doneSent THEN "NextBeforeRuntimeDone"
